@@ -23,8 +23,11 @@ func (w *World) runClient() {
 		return
 	}
 	if err := cli.Start(); err != nil {
-		w.violate("HARNESS", "client-start", "Client.Start: %v", err)
-		w.runDone = true
+		w.runDone, w.runErr, w.runDoneStep = true, err, w.s.Step()
+		w.logf("Client.Start returned err=%v", err)
+		if !w.startFault() {
+			w.violate("HARNESS", "client-start", "Client.Start: %v", err)
+		}
 		return
 	}
 	w.cli = cli
@@ -248,6 +251,7 @@ func GenerateClient(seed uint64, prop, tier string) *Plan {
 	}
 	p.Users = up
 	p.Stop.Source = "client.Stop"
+	addStartFault(r, p, prop)
 	return p
 }
 
